@@ -23,13 +23,15 @@ func init() {
 		register2("t2", []string{"sumTo", "find", "countUntil", "nested", "at", "window", "be", "put", "div",
 			"classify", "guarded", "check", "mk", "rangeInt", "lines", "greet", "anyTrue", "ctr.inc", "mach.step", "sq.area", "rc.area", "disp.route",
 			"parse", "widen", "flags", "text",
-			"box.cas", "box.push", "box.offer", "box.pin", "box.room"})
+			"box.cas", "box.push", "box.offer", "box.pin", "box.room",
+			"spans", "widths"})
 	case "bad":
 		registry2 = map[string]*target2{}
 		pkgOrder2 = nil
 		register2("t2", []string{"badWhile", "badParamWrite", "badShadow", "badMap", "badClosure", "badBound",
 			"badAlias", "badString", "badGoto", "badRangeWrite", "badAliasInLoop", "badFuncField", "badIface",
 			"badFloatAdd", "badFloatLess", "badFloatNarrow", "badMutualA", "badMutualB",
-			"badSelectTwo", "badRecvValue", "badChanOfPointers", "badNamedResult", "badClose"})
+			"badSelectTwo", "badRecvValue", "badChanOfPointers", "badNamedResult", "badClose",
+			"spans", "badSeqBreak", "badStrideVar"})
 	}
 }
